@@ -188,6 +188,15 @@ DSETS = [
     [5, 1, None, 3],
     [None, 7, None, 2, None],
     [-3, None, -9, None],
+    # leading implicit variants followed by the explicit value they lead up to (an off-by-one in the implicit count collides)
+    # an implicit run that crosses a signed-type boundary in the middle of the enum, followed by a lower explicit value
+    [127, None, 0],
+    [32767, None, -1],
+    [2147483647, None, 5],
+    [-129, None, 126, None, 0],
+    [None, 1],
+    [None, None, 2, None],
+    [None, 1, None, None],
 ]
 
 
@@ -269,6 +278,9 @@ def quick_configs(seed):
             (['none', 'none', 'none'], None, [32767, -32768, 40000]), (['none'] * 5, None, [10, None, 3, None, 5]), (['none'] * 4, None, [5, 1, None, 3]),
             (['u8', 'none', 'bool', 'none', 'u8'], 'i16', [None, 7, None, 2, None]), (['none'] * 4, 'i8', [-3, None, -9, None]), (['none', 'none'], 'u32', [4294967295, 0]), (['none', 'none'], None, [2147483648, -1]),
             (['none', 'none'], 'i128', [2**127 - 1, -2**127]), (['u8', 'none', 'bool'], 'u128', [2**100, 5, None]), (['none', 'u8'], 'i128', [-2**127, None]),
+            (['none'] * 3, None, [127, None, 0]), (['none'] * 3, None, [32767, None, -1]), (['none'] * 3, None, [2147483647, None, 5]), (['none'] * 5, None, [-129, None, 126, None, 0]),
+            (['none', 'none'], None, [None, 1]), (['u8', 'none', 'none', 'bool'], 'u8', [None, None, 2, None]), (['none'] * 4, None, [None, 1, None, None]),
+            (['none', 'none', 'none'], ' ', None), (['u8', 'none'], ' ', None),      # `#[repr( )]`: an empty list selects the default representation
             (['ign', 'none', 'u8'], None, None), (['none', 'empt', 'none'], None, None), (['empn', 'ign', 'none'], None, None), (['ign', 'none', 'none'], 'u8', [5, None, None]),
             (['empt', 'empn', 'u8'], 'i16', [3, None, None]), (['u8', 'ign', 'empt', 'none'], None, None),
             (['opt', 'opt'], None, None), (['bool', 'bool'], None, None), (['char', 'char', 'none'], None, None), (['none', 'none', 'none'], None, [2, 1, 0])]
